@@ -132,6 +132,7 @@ func faultResponder(p *peer, ci, ri int, req *wireMsg, w io.Writer) bool {
 type c12Env struct {
 	direct, via, mitm, viaRefused, viaTimeout *fwd
 	byLog                                     map[string][3]*fwd // --log-http mode -> direct, via, mitm
+	rejMitm                                   *fwd
 	peers                                     []*peer
 }
 
@@ -238,6 +239,14 @@ func c12Run(e *env) {
 	}
 	defer rejf.stop()
 	rejf.mapName("rejproxy.test:3128", env.peers[7].addr())
+	// the same upstream behind an intercepting proxy: the transport's own CONNECT is what gets rejected
+	rejm, err := startFwd(fwdCfg{Name: "fwd", Localhost: "allow", Upstream: "http://rejproxy.test:3128", MITM: true})
+	if err != nil {
+		fatal("%v", err)
+	}
+	defer rejm.stop()
+	rejm.mapName("rejproxy.test:3128", env.peers[7].addr())
+	env.rejMitm = rejm
 	full := e.args["full"] == "1"
 	var cases []c12Case
 	e.eachCase(func(raw json.RawMessage) {
@@ -362,6 +371,12 @@ func (env *c12Env) faultCase(c c12Case, k int, rejf *fwd) map[string]any {
 	case "MITMGET":
 		f = env.mitm
 		inner = true
+	case "MITMGETviaRej", "MITMHEADviaRej":
+		f = env.rejMitm
+		inner = true
+		if c.K == "MITMHEADviaRej" {
+			method = "HEAD"
+		}
 	}
 	if fs, ok := env.byLog[c.Log]; ok {
 		switch f {
@@ -390,7 +405,7 @@ func (env *c12Env) faultCase(c c12Case, k int, rejf *fwd) map[string]any {
 			fail("MITM handshake: " + err.Error())
 			return res
 		}
-		req = fmt.Sprintf("GET %s HTTP/1.1\r\nHost: %s\r\n\r\n", path, host)
+		req = fmt.Sprintf("%s %s HTTP/1.1\r\nHost: %s\r\n\r\n", method, path, host)
 	}
 	cl.send([]byte(req))
 	got, err := cl.recv(method, 12*time.Second)
@@ -412,7 +427,8 @@ func (env *c12Env) faultCase(c c12Case, k int, rejf *fwd) map[string]any {
 	}
 	isProxyError := complete && got.has("X-Forwarder-Error")
 	isOriginFull := complete && got.first("X-Fault-Origin") == "yes" && got.Status == 200 && bytes.Equal(got.Body, wantBody)
-	if complete && !isProxyError && !isOriginFull && c.K != "CONNECT" && !(c.K == "CONNECTviaProxy" && got.Status != 200) {
+	relayedRejection := (c.K == "CONNECTviaProxy" || c.K == "MITMGETviaRej" || c.K == "MITMHEADviaRej") && got != nil && got.Status != 200
+	if complete && !isProxyError && !isOriginFull && c.K != "CONNECT" && !relayedRejection {
 		if !(method == "CONNECT" && got.Status == 200) {
 			fail(fmt.Sprintf("client parsed a complete response (status %d, %d body bytes) that is neither the origin's full response nor a proxy error response", got.Status, len(got.Body)))
 		}
